@@ -364,6 +364,40 @@ func genLifePlan(seed int64, tier string) *LifePlan {
 					}
 					p.Dels = append(p.Dels, d)
 				}
+				// steady traffic that does not stop with the signal: one exporter per
+				// protocol keeps sending with gaps below the one-second read deadline
+				// for eight seconds; the collector must still stop within the bound
+				if r.Intn(3) == 0 {
+					n = len(p.Dels)
+					period := []int{150000, 400000, 700000, 950000}[r.Intn(4)]
+					for _, pr := range protos {
+						if r.Intn(2) == 0 && len(protos) > 1 && len(p.Dels) > n {
+							continue
+						}
+						src := -1
+						for i := 0; i < n; i++ {
+							d := &p.Dels[i]
+							if d.Proto == pr && d.DupOf == 0 && !d.BadHeader && d.Raw == nil && d.Phase <= p.Life.SignalPhase {
+								src = i
+								if r.Intn(3) == 0 {
+									break
+								}
+							}
+						}
+						if src < 0 {
+							continue
+						}
+						for at := r.Intn(period); at < 8000000; at += period - r.Intn(period/10) {
+							d := p.Dels[src]
+							d.Phase = p.Life.SignalPhase
+							d.AtUs = p.Life.SignalAtUs + at
+							d.AbsUs = 0
+							d.ID = len(p.Dels)
+							restamp(&d, uint32(12000+len(p.Dels)))
+							p.Dels = append(p.Dels, d)
+						}
+					}
+				}
 			}
 		} else {
 			p.Life.SignalPhase = -1
